@@ -9,6 +9,8 @@ CONSTANTS
   Retention <- TraceRetention
   Lookback <- TraceLookback
   MaxPast <- TraceMaxPast
+  OOT <- TraceOOT
+  MFD <- TraceMFD
   Dev <- TraceDev
 POSTCONDITION TraceAccepted
 CHECK_DEADLOCK FALSE
@@ -267,8 +269,10 @@ def core_profiles(extra=None, n=10, steps=40):
          dict(n=n, steps=steps, backend="sql", regime="causal", profile="core"),
          dict(n=n, steps=steps + 10, backend="mixed", regime="causal", retention=2, profile="members"),
          dict(n=n, steps=steps + 10, backend="sql", regime="causal", profile="members", groups=2),
-         dict(n=12, backend="mixed", profile="fork")]
+         dict(n=12, backend="mixed", profile="fork"),
+         dict(n=8, backend="mixed", profile="props")]
     t = [dict(n=60, backend=["mem", "sql", "mixed"][i % 3], profile="fork", retention=[5, 3, 6][i % 3]) for i in range(3)]
+    t += [dict(n=60, backend=["mem", "sql", "mixed"][i % 3], profile="props", restarts=i % 2, retention=[5, 2, 3][i % 3]) for i in range(3)]
     for i in range(10):
         t.append(dict(n=50, steps=60, backend=["mem", "sql", "mixed"][i % 3], regime="causal",
                       retention=[5, 2, 1, 3][i % 4], profile=["core", "members"][i % 2]))
@@ -287,15 +291,28 @@ def plan_C01(ctx, rt):
 
 
 def plan_C02(ctx, rt):
-    return run_marmot(ctx, rt, invariants=["InvC02"], properties=["ActC02"], view="C02", mc=MC_CORE, profiles=core_profiles(),
+    pr = core_profiles()
+    # non-default sender-ratchet / past-epoch windows, narrow enough that bursts of messages cross them
+    pr["quick"] = pr["quick"] + [dict(n=5, steps=70, backend="mixed", regime="causal", profile="core", oot=1, mfd=2),
+                                 dict(n=4, steps=70, backend="mem", regime="causal", profile="members", oot=2, mfd=5, maxpast=2)]
+    pr["thorough"] = pr["thorough"] + [dict(n=30, steps=80, backend=["mem", "sql", "mixed"][i % 3], regime="causal", profile=["core", "members"][i % 2],
+                                            oot=[1, 2, 0, 3][i % 4], mfd=[2, 5, 1, 3][i % 4], maxpast=[5, 2, 1, 3][i % 4]) for i in range(4)]
+    return run_marmot(ctx, rt, invariants=["InvC02"], properties=["ActC02"], view="C02", mc=MC_CORE, profiles=pr,
                       nontrivial=nt_msgs, assumptions=ASSUME_MARMOT,
-                      rule="as C01; non-trivial = at least one message created and stored at another member")
+                      rule="as C01, plus configurations with out_of_order_tolerance in {0..3}, maximum_forward_distance in {1..5}, "
+                           "max_past_epochs in {1..5} and senders talking in bursts; non-trivial = at least one message created and stored at another member")
 
 
 def plan_C07(ctx, rt):
-    return run_marmot(ctx, rt, invariants=[], properties=["ActC07"], view="C07", mc=MC_CORE, profiles=core_profiles(),
+    pr = core_profiles()
+    # re-delivery after a restart (hydrated snapshot queue) and to clients fed hostile / foreign events
+    pr["quick"] = pr["quick"] + [dict(n=8, steps=50, backend="sql", regime="causal", profile="core", restarts=1),
+                                 dict(n=6, steps=60, backend="mixed", regime="causal", profile="members", observers=1, junk=1, restarts=1)]
+    pr["thorough"] = pr["thorough"] + [dict(n=40, steps=70, backend=["sql", "mixed"][i % 2], regime="causal", profile=["core", "members"][i % 2],
+                                            restarts=1, junk=i % 2, observers=i % 2, retention=[5, 2][i % 2]) for i in range(4)]
+    return run_marmot(ctx, rt, invariants=[], properties=["ActC07"], view="C07", mc=MC_CORE, profiles=pr,
                       nontrivial=nt_redeliver, assumptions=ASSUME_MARMOT,
-                      rule="as C01; non-trivial = some event handed to the same client at least twice")
+                      rule="as C01, plus histories with restarts and hostile events; non-trivial = some event handed to the same client at least twice")
 
 
 def plan_C08(ctx, rt):
@@ -305,17 +322,26 @@ def plan_C08(ctx, rt):
 
 
 def plan_C20(ctx, rt):
-    return run_marmot(ctx, rt, invariants=["InvC20"], view="C20", mc=MC_CORE, profiles=core_profiles(),
-                      nontrivial=nt_commit, assumptions=ASSUME_MARMOT,
-                      rule="as C01 with retention in {1,2,3,5}; stored snapshot list compared after every call")
+    pr = core_profiles()
+    # start-up pruning by age: restarts with snapshot_ttl_seconds in {0..3} around the real ages of the stored snapshots
+    pr["quick"] = pr["quick"] + [dict(n=6, steps=60, backend="sql", regime="causal", profile="core", restarts=1, ttl=1, retention=3),
+                                 dict(n=4, steps=40, backend="mixed", regime="causal", profile="core", retention=0)]
+    pr["thorough"] = pr["thorough"] + [dict(n=30, steps=70, backend="sql", regime="causal", profile=["core", "members"][i % 2], restarts=1, ttl=1,
+                                            retention=[0, 1, 4, 6][i % 4], groups=1 + i % 2) for i in range(4)]
+    return run_marmot(ctx, rt, invariants=["InvC20"], properties=["ActC20"], view="C20", mc=MC_CORE, profiles=pr,
+                      nontrivial=nt_commit, assumptions=ASSUME_MARMOT + ["snapshot ages are measured by the driver's own wall clock (seconds); a restart with a "
+                                "TTL is issued only when every stored snapshot is unambiguously older or younger than the TTL"],
+                      rule="as C01 with retention in {0,1,2,3,5,6}; stored snapshot list compared after every call; restarts with "
+                           "snapshot_ttl_seconds in {0,1,2,3} must remove exactly the snapshots older than the TTL by the driver's clock")
 
 
 def restart_profiles():
     q = [dict(n=10, steps=50, backend="sql", regime="causal", profile="core", restarts=1),
          dict(n=10, steps=60, backend="sql", regime="causal", profile="members", restarts=1, retention=2),
-         dict(n=6, steps=50, backend="mixed", regime="causal", profile="members", restarts=1)]
+         dict(n=6, steps=50, backend="mixed", regime="causal", profile="members", restarts=1),
+         dict(n=4, steps=50, backend="sql", regime="causal", profile="core", restarts=1, ttl=1)]
     t = [dict(n=50, steps=70, backend=["sql", "mixed"][i % 2], regime="causal", profile=["core", "members"][i % 2],
-              restarts=1, retention=[5, 2, 1, 3][i % 4]) for i in range(8)]
+              restarts=1, retention=[5, 2, 1, 3][i % 4], ttl=i % 2) for i in range(8)]
     return {"quick": q, "thorough": t}
 
 
@@ -396,10 +422,14 @@ def plan_C14(ctx, rt):
     profs = {"quick": [dict(n=8, steps=50, backend="mixed", regime="causal", profile="core"),
                        dict(n=8, steps=60, backend="mixed", regime="causal", profile="members", observers=1, restarts=1, wreplay=1),
                        dict(n=8, steps=60, backend="sql", regime="causal", profile="members", observers=1, restarts=1, retention=2),
-                       dict(n=20, backend="mixed", profile="welcome")],
+                       dict(n=20, backend="mixed", profile="welcome"),
+                       dict(n=6, steps=70, backend="mixed", regime="causal", profile="members", groups=2, adv=1, junk=1),
+                       dict(n=6, backend="mixed", profile="props", restarts=1)],
              "thorough": [dict(n=40, steps=70, backend=["mem", "sql", "mixed"][i % 3], regime="causal",
                                profile=["core", "members", "members", "welcome"][i % 4], observers=1, restarts=1, wreplay=1,
-                               retention=[5, 2, 1][i % 3]) for i in range(12)]}[tier if tier in ("quick", "thorough") else "quick"]
+                               retention=[5, 2, 1][i % 3]) for i in range(12)]
+                         + [dict(n=30, steps=70, backend=["mixed", "mem"][i % 2], regime="causal", profile="members", groups=2, adv=1, junk=1) for i in range(2)]
+                         + [dict(n=30, backend="mixed", profile="props", restarts=1), dict(n=30, backend="mixed", profile="fork")]}[tier if tier in ("quick", "thorough") else "quick"]
     if ctx.get("replay"):
         profs = [json.load(open(ctx["replay"]))["profile"]]
     calls = logs = 0
